@@ -88,6 +88,18 @@ Theorem C10_fb_tail_untouched_history : forall c ops data k,
   byte_at (fold_left (fb_step c) ops data) k = byte_at data k.
 Proof. exact fb_tail_untouched_history. Qed.
 
+(* drawing as_image() (ImageDrawable::draw -> ContiguousPixels as written): fill_contiguous receives exactly
+   WIDTH * HEIGHT colours and colour number y * WIDTH + x is pixel (x, y) of the framebuffer, i.e. the
+   drawn image reproduces the content (the fuel of the model's stream never runs out) *)
+Theorem C10_fb_as_image_draw : forall c data,
+  fb_ok c data ->
+  exists im cols,
+    fb_as_image c data = Some im /\ image_draw_colors im = Some cols /\
+    Z.of_nat (length cols) = fb_w c * fb_h c /\
+    forall x y, 0 <= x < fb_w c -> 0 <= y < fb_h c ->
+      fb_pixel c data (x, y) = Pix (nth_error cols (Z.to_nat (y * fb_w c + x))).
+Proof. exact fb_as_image_draw. Qed.
+
 (* non-vacuity: a 9x2 1-bpp framebuffer (rows padded to 2 bytes) in both data orders, oversized by one byte *)
 Example C10_witness :
   let c0 := FbCfg U1 false 9 2 in let c1 := FbCfg U1 true 9 2 in
@@ -97,7 +109,8 @@ Example C10_witness :
   fold_left (fb_step c1) [OpSet (0, 0) 1; OpSet (8, 1) 1] (fb_new 5) = [1; 0; 0; 1; 0] /\
   fb_pixel c1 [1; 0; 0; 1; 0] (8, 1) = Pix (Some 1) /\ fb_pixel c1 [1; 0; 0; 1; 0] (7, 0) = Pix (Some 0) /\
   fb_pixel c0 [128; 0; 0; 128; 0] (0, 0) = Pix (Some 1) /\ fb_pixel c0 [128; 0; 0; 128; 0] (9, 0) = Pix None /\
-  fb_set_pixel (FbCfg U16 true 3 2) (fb_new 12) (1, 1) 4660 = [0; 0; 0; 0; 0; 0; 0; 0; 18; 52; 0; 0].
+  fb_set_pixel (FbCfg U16 true 3 2) (fb_new 12) (1, 1) 4660 = [0; 0; 0; 0; 0; 0; 0; 0; 18; 52; 0; 0] /\
+  option_map image_draw_colors (fb_as_image (FbCfg U2 false 3 2) [27; 228; 9]) = Some (Some [0; 1; 2; 3; 2; 1]).
 Proof.
   cbv zeta. split; [apply fb_new_ok; vm_compute; repeat split; congruence|].
   split; [apply fb_new_ok; vm_compute; repeat split; congruence|].
